@@ -233,7 +233,7 @@ where
             self.add_state(-carry);
             advance_block(&mut self.states[last_block], &peq[last_block], a, carry);
         } else {
-            while last_block > 0 && self.states[last_block].dist >= max_dist + w {
+            while last_block > 0 && self.states[last_block].dist >= max_dist.saturating_add(w) {
                 last_block -= 1;
             }
             #[cfg(feature = "verif-hooks")]
